@@ -108,6 +108,11 @@ def universe(tier):
         # int arrays beyond the float mantissa against the float array they round to
         ('arr[2**53,1]i', np.array([2 ** 53, 1])), ('arr[2**53+1,1]i', np.array([2 ** 53 + 1, 1])), ('arr[2.**53,1.]', np.array([2.0 ** 53, 1.0])),
         ('buf[:2]', buf[:2]), ('buf[1:]', buf[1:]), ('buf[::-1][1:]', buf[::-1][1:]), ('sq.T', sq.T), ('[buf[:2]]', [buf[:2]]), ('[buf[1:]]', [buf[1:]]),
+        # low-precision numpy floats holding a non-dyadic value next to the Python float they were made from (numpy compares at the narrow width, both ways round)
+        ('np.float32(0.1)', np.float32(0.1)), ('0.1', 0.1), ('[np.float32(0.1)]', [np.float32(0.1)]), ('[0.1]', [0.1]), ('np.float16(0.3)', np.float16(0.3)), ('0.3', 0.3),
+        # frames in which one column LABEL occurs twice (columns are positions): equal copies, and a copy differing in the second of the two
+        ('DFaa[[1,2]]', pd.DataFrame([[1., 2.]], columns=['a', 'a'], index=A[:1])), ('DFaa[[1,2]]#2', pd.DataFrame([[1., 2.]], columns=['a', 'a'], index=A[:1])),
+        ('DFaa[[1,3]]', pd.DataFrame([[1., 3.]], columns=['a', 'a'], index=A[:1])), ('[DFaa[[1,2]]]', [pd.DataFrame([[1., 2.]], columns=['a', 'a'], index=A[:1])]),
         # OBJECT arrays with one shape and different memory layouts: cells are paired by index, not by where they sit in memory
         ('sqO', sqO), ('sqO.T', sqO.T), ('sqO F-order', np.asfortranarray(sqO)), ('sqO.T copy', sqO.T.copy()), ('o3[::-1]', o3[::-1]), ('o3', o3), ('o3 reversed copy', o3[::-1].copy()),
     ]
